@@ -15,12 +15,29 @@ inductive Idx
   | free (count : Nat)
   deriving DecidableEq, Repr, Inhabited
 
+/-- one entry of a (flattened) Python sort key: an int or a str -/
+inductive KeyAtom
+  | n (v : Int)
+  | s (v : String)
+  deriving DecidableEq, Repr, Inhabited
+
+/-- what a terminal comparator of ufl/sorting.py puts into its sort key (`x = (..., ..., ...)`); which parts the
+    comparator of a class uses is regenerated from the tree under test (Gen/OrderVariant.lean) -/
+inductive KeyPart
+  | repr          -- repr(a)
+  | domKey        -- the domain's `_ufl_sort_key_()`
+  | shape         -- ufl_shape
+  | count         -- the Counted count
+  | indexDims     -- ufl_index_dimensions (Zero)
+  deriving DecidableEq, Repr, Inhabited
+
 structure TermData where
   cls : String              -- class name
   key : String              -- repr(o): the identity `==`, hashing and the repr comparator see
   shape : List Nat
   count : Int := 0          -- Coefficient / Constant / Label count, Argument number
   part : Int := -1          -- Argument part (-1 = None)
+  dom : List KeyAtom := []  -- Constant / geometric quantity: the domain's `_ufl_sort_key_()`, nested tuples flattened
   deriving DecidableEq, Repr, Inhabited
 
 inductive Op
